@@ -1,7 +1,7 @@
 # C15 Retransmission: gate before emit, refresh after, skip acked (necessary conditions)
 import re
 from sa.rules import *
-from sa.rules import NEGATE
+from sa.rules import NEGATE, MIRROR
 import rules.wave3 as W3
 SR = "channel::reliable::SendChannelReliable"
 
@@ -24,15 +24,49 @@ def rules(t):
             elif 1 in br["targets"]: none_edges.add((br["bb"], br["otherwise"]))
     pass_edges = {e for e, br in rel_edges(t, f, is_age, is_rt, "Ge", also=none_edges)} | none_edges
     early_edges = {e for e, br in rel_edges(t, f, is_age, is_rt, "Lt")}
-    # `last_sent.is_some_and(|sent| now - sent < resend_time)`: the false edge is "never sent, or old enough"
-    for br in t.find_callcond(f, r"Option.*::is_some_and$|::is_some_and$"):
-        if "last_sent" not in fmt(br["cond"][2][0]): continue
-        cl = [g for g in fn_and_closures(t, f) if g is not f and short(g.path).split("::")[-1] in fmt(br["cond"][2][1])]
+    # the gate as one Option adaptor over `last_sent`:  is_some_and(|s| now - s < rt)  [true = too early],  map_or(true, |s| now - s >= rt)  [true = due],
+    # is_none_or(|s| now - s >= rt) [true = due]; tested directly, negated, or after being stored in a flag (`let due = !acked[i] && last_sent.map_or(..)`)
+    def gate_call(o):
+        """('early'|'due') meaning of `o` being true, if o is such an adaptor call"""
+        o = strip(o)
+        if not (isinstance(o, tuple) and o[0] == "call" and o[2] and "last_sent" in fmt(o[2][0])): return None
+        m_ = method_of(o[1])
+        if m_ not in ("is_some_and", "map_or", "is_none_or"): return None
+        dflt = const_eval(o[2][1]) if m_ == "map_or" and len(o[2]) > 2 else None
+        clo = fmt(o[2][-1])
+        cl = [g for g in fn_and_closures(t, f) if g is not f and short(g.path).split("::")[-1] in clo]
         for g in cl:
             ret = resolved(t, g.origin_of_local(0), g)
             c = t.norm_cond(strip(ret))
-            if c[0] == "cmp" and ((c[1] == "Lt" and "current_time" in fmt(c[2]) and is_rt(c[3])) or (c[1] == "Gt" and is_rt(c[2]) and "current_time" in fmt(c[3]))):
-                pass_edges.add(br["f_edge"]); early_edges.add(br["t_edge"])
+            if c[0] != "cmp": continue
+            age_l, age_r = "current_time" in fmt(c[2]) or "Sub" in fmt(c[2]) or "sub" in fmt(c[2]), "current_time" in fmt(c[3]) or "Sub" in fmt(c[3]) or "sub" in fmt(c[3])
+            op = c[1] if (age_l and is_rt(c[3])) else (MIRROR[c[1]] if (age_r and is_rt(c[2])) else None)
+            if op is None: continue
+            if op == "Lt" and m_ == "is_some_and": return "early"
+            if op == "Ge" and m_ == "is_none_or": return "due"
+            if op == "Ge" and m_ == "map_or" and dflt == 1: return "due"
+            if op == "Lt" and m_ == "map_or" and dflt == 0: return "early"
+        return None
+    for br in t.branches(f):
+        if br["kind"] != "bool": continue
+        raw = br["raw"]
+        alts = list(raw[2]) if isinstance(raw, tuple) and raw[0] == "phi" else [raw]
+        consts = [const_eval(a_) for a_ in alts if const_eval(a_) is not None]
+        calls_ = [a_ for a_ in alts if const_eval(a_) is None]
+        if len(calls_) != 1: continue
+        meaning = gate_call(calls_[0])
+        if meaning is None: continue
+        # `flag = other && gate`: the flag is true only if the gate call was true (the other alternative is the constant false)
+        if not consts or all(c_ == 0 for c_ in consts):
+            if meaning == "due": pass_edges.add(br["t_edge"])
+            else: early_edges.add(br["t_edge"])
+        if not consts:
+            if meaning == "due": early_edges.add(br["f_edge"])
+            else: pass_edges.add(br["f_edge"])
+        # `flag = other || gate` (constant true alternative): the flag is false only if the gate call was false
+        if consts and all(c_ == 1 for c_ in consts):
+            if meaning == "due": early_edges.add(br["f_edge"])
+            else: pass_edges.add(br["f_edge"])
     from rules.netcode_common import reachable_avoiding
     reach = reachable_avoiding(f, 0, pass_edges)
     for c in emits:
